@@ -18,6 +18,8 @@ ASSUMES = ["grammar.txt lines are structure<TAB>probability; a Markov structure 
 
 import loader_tie as _loader_tie
 TRUSTED = TRUSTED + [_loader_tie.TRUSTED]
+import cli_tie as _cli_tie
+TRUSTED = TRUSTED + [_cli_tie.TRUSTED]
 
 
 def load_bases_direct(g):
@@ -371,6 +373,14 @@ def run(ctx):
     # second tie to the source (translator): _load_base_structures re-translated from the Python text equals load_bases
     import loader_tie
     corr.append(loader_tie.obligation())
+    # translator tie of the command line / save-file glue (pcfg_guesser.py: which flags reach PcfgGrammar, --load reads the
+    # save file first, the store_const toggles, the save -> load round trip) + its correspondence against the real functions
+    import cli_tie
+    corr += cli_tie.obligations("C14")
+    c2, v2, st = cli_tie.run(ctx, "C14", n_parse=ctx.scale(120, 800), n_saveload=ctx.scale(40, 300), n_main=ctx.scale(60, 400))
+    corr += c2
+    vio += v2
+    dist.update(st)
     rule = ("generated rulesets with the Markov structure first / in the middle / last / absent / alone (cyclically), loaded by the "
             "real loader under the four flag combinations; base lists compared bit-exactly with the model and with the direct "
             "restriction oracle, capitalisation tables under all_lower, pre-terminal streams for every third ruleset, and the CLI "
@@ -378,13 +388,16 @@ def run(ctx):
             "three times (save file flags after every session, union of the outputs = the uninterrupted run); plus histories of 3-5 loads of ONE "
             "directory (impl_next.History: the flag combinations in random order, in-place edits keeping the uuid - Markov line moved / added / "
             "removed, base structure dropped, files re-weighted, values added / removed, real edit_rules - and re-trainings), base lists and tables "
-            "compared after every load with the files as they are then; distinct by grammar.txt; non-trivial = Markov not simply in the middle of a 2-line file")
+            "compared after every load with the files as they are then; generated command lines / save files run through the real parse_command_line, create_save_config, load_save and main (recording stand-ins for PcfgGrammar and the sessions) against the model of harness/cli_tie.py; distinct by grammar.txt; non-trivial = Markov not simply in the middle of a 2-line file")
     return {"evaluations": dist["rulesets"] * 4, "distinct_nontrivial": nontrivial, "rule": rule, "samples": samples,
             "corr": corr, "violations": vio, "dist": dist}
 
 
 def replay(ctx, data):
     inp = data.get("input") or {}
+    if inp.get("cli") in ("parse", "main", "saveload"):
+        import cli_tie
+        return cli_tie.replay(ctx, "C14", inp)
     if "ruleset" not in inp:
         return []
     rs = inp["ruleset"]
